@@ -451,9 +451,16 @@ func vC19RunSequence(r *verifkit.Run, rng *rand.Rand, ctr vC19Ctr) {
 
 		// ---- closing must not fail ----
 		var final *FinalRound
+		// (closing sorts the round's snapshots in place; accepting only appends. The live round is therefore closed on a
+		// copy most of the time, so that it keeps the order in which its snapshots arrived, as between two closings of
+		// a running node)
+		closing := c
+		if (len(accepted)+int(q.anchor%3))%3 != 0 {
+			closing = c.Copy()
+		}
 		panicked, val, stack = verifkit.Guard(func() {
-			c.Gap()
-			final = c.asFinal()
+			closing.Gap()
+			final = closing.asFinal()
 		})
 		ctr.add("closings", 1)
 		if panicked {
